@@ -500,7 +500,7 @@ def _composition_shape(prog, fi, e, roles, is_outer) -> Tuple[bool, str]:
     return False, f"unrecognised composition `{T(e, 70)}` (steps {names})"
 
 
-def r0210(prog, chk):
+def r0210(prog, chk, rule="R02.10"):
     ix = prog.ix
     # (a) Transform objects are never assembled from hand-computed components
     n = 0
@@ -509,7 +509,7 @@ def r0210(prog, chk):
             if _is_transform_ctor(prog, fi, c):
                 n += 1
                 ok = not c.keywords and (not c.args or (len(c.args) == 1 and isinstance(c.args[0], ast.Starred)))
-                chk.ob("R02.10", f"{fi.short}|{A.keytext(fi.node, c)}", ok, where(fi, c), detail="Transform(*<6-tuple>) / Transform()",
+                chk.ob(rule, f"{fi.short}|{A.keytext(fi.node, c)}", ok, where(fi, c), detail="Transform(*<6-tuple>) / Transform()",
                        message=f"{fi.short} assembles a Transform from hand-computed components (`{T(c, 70)}`): nested component transforms must be "
                                f"composed with fontTools' Transform algebra (an offset has to be mapped through the outer 2x2)")
     need(n >= 5, "Transform constructions not found")
@@ -557,7 +557,7 @@ def r0210(prog, chk):
         if not nested_ctx:
             v = _expand(prog, fc, e)
             ok = is_outer_in(fc, set())(v)
-            chk.ob("R02.10", f"{fc.short}|leaf component keeps its own transformation", ok, where(fc, tup), detail=T(v, 60),
+            chk.ob(rule, f"{fc.short}|leaf component keeps its own transformation", ok, where(fc, tup), detail=T(v, 60),
                    message=f"{fc.short}: a component that is not nested is not emitted with its own transformation (`{T(v, 60)}`)")
             continue
         v = e
@@ -570,7 +570,7 @@ def r0210(prog, chk):
             ts, how = prog.resolve_callee(fc, v.func)
             helper = [t for t in ts if isinstance(t, FuncInfo)]
             if len(helper) != 1:
-                chk.ob("R02.10", f"{fc.short}|nested transformation composed", False, where(fc, tup), message=f"cannot resolve `{T(v, 50)}`")
+                chk.ob(rule, f"{fc.short}|nested transformation composed", False, where(fc, tup), message=f"cannot resolve `{T(v, 50)}`")
                 continue
             h = helper[0]
             hroles, outers = {}, set()
@@ -589,19 +589,19 @@ def r0210(prog, chk):
                     why = "INNER returned only when OUTER == Identity"
                 else:
                     ok, why = _composition_shape(prog, h, r.value, hroles, is_outer_in(h, outers))
-                chk.ob("R02.10", f"{h.short}|{A.keytext(h.node, r)}", ok, where(h, r), detail=why,
+                chk.ob(rule, f"{h.short}|{A.keytext(h.node, r)}", ok, where(h, r), detail=why,
                        message=f"{h.short} (used by {fc.short} to place nested components): {why}")
             continue
         ok, why = _composition_shape(prog, fc, e, roles, is_outer_in(fc, set()))
-        chk.ob("R02.10", f"{fc.short}|nested transformation = OUTER o INNER", ok, where(fc, tup), detail=why,
+        chk.ob(rule, f"{fc.short}|nested transformation = OUTER o INNER", ok, where(fc, tup), detail=why,
                message=f"{fc.short}: the transformation of a flattened nested component is not outer o inner: {why}")
     # every emitted tuple reaches the pen: _flattenGlyphComponents adds each tuple unchanged
     fg = ix.get_func("ufo2ft.filters.flattenComponents:_flattenGlyphComponents")
     adds = [c for c in calls_named(fg, "addComponent")]
     ok = bool(adds) and all(len(c.args) == 1 and isinstance(c.args[0], ast.Starred) for c in adds)
-    chk.ob("R02.10", f"{fg.short}|flattened tuples are added unchanged", ok, where(fg), detail="pen.addComponent(*flattened_tuple)",
+    chk.ob(rule, f"{fg.short}|flattened tuples are added unchanged", ok, where(fg), detail="pen.addComponent(*flattened_tuple)",
            message=f"{fg.short} no longer adds the flattened (baseGlyph, transformation) tuples as they are")
-    chk.minimum("R02.10", 9)
+    chk.minimum(rule, 9)
 
 
 MUTANTS = [
